@@ -8,6 +8,7 @@
   Helper lemmas: `Jawk/Lemmas/PipelinePure.lean`, `Jawk/Lemmas/PipelineSpec.lean`.
 -/
 import Jawk.Lemmas.PipelineSpec
+import Jawk.Lemmas.RunSpec
 namespace Jawk.C03
 open Jawk Pipe
 
@@ -76,6 +77,29 @@ theorem stage_functions (ev : Expr → Ctx → Option JV) (rows : List Ctx) (e :
     stageSpec ev (.limit skip take) none rows = takeOpt take (rows.drop skip) ∧
     stageSpec ev .merge none rows = [{ input := .arr (rows.map Ctx.build) }] :=
   ⟨rfl, rfl, rfl, rfl, rfl⟩
+
+
+/-! ### the whole run -/
+
+/-- what `build` assembles is a chain in initial state with grouping (if any) last — for EVERY configuration
+that builds, whatever order the options were given in (the configuration is a record) -/
+theorem build_is_initial (orc : Oracles) (c : Cfg) (p : Pipeline) (h : build orc c = .ok p) :
+    Initial p.cfgs p.sts ∧ GroupLast p.cfgs ∧ p.sts.length = p.cfgs.length ∧ p.sinkLen = p.titles.length :=
+  RunSpec.build_initial orc c p h
+
+/-- MAIN, end to end: for every configuration that builds, every list of input sources (any bytes, malformed
+regions included — they are skipped under `--on-error=ignore`) the standard output of `run` is the header (if
+any) followed by exactly the bytes of the documented composition applied to the values read, in order
+(`ctxsOfSources`: `--only-objects-and-arrays` already applied), and nothing is written to standard error -/
+theorem run_refines (orc : Oracles) (c : Cfg) (sources : List Source) (wOut wErr : Writer) (p : Pipeline)
+    (hpol : c.onError = .ignore) (hb : build orc c = .ok p) (hna : NoAbort orc p.cfgs) (hw : Unbounded wOut)
+    (hcl : RunSpec.CleanIO sources) (hh : ¬ RunSpec.HeaderMissing p) :
+    (run orc c sources wOut wErr).result = .ok ()
+      ∧ (run orc c sources wOut wErr).stdout
+          = wOut.out ++ RunSpec.headerBytes p ++
+            (specRows (evalT orc) p.cfgs p.sts (RunSpec.ctxsOfSources c sources 0)).flatMap (sinkBytes p.sink p.sinkLen)
+      ∧ (run orc c sources wOut wErr).stderr = wErr.out :=
+  RunSpec.run_ignore_spec orc c sources wOut wErr p hpol hb hna hw hcl hh
 
 /-! ### non-vacuity: a chain with every kind of stage satisfies the hypotheses -/
 example (orc : Oracles) : NoAbort orc exampleChain ∧ Initial exampleChain exampleStates ∧ GroupLast exampleChain :=
